@@ -45,7 +45,7 @@ def run(ctx):
     proof_ok, proof = common.proof_status(ctx, "C01")
     n = 4000 if ctx.quick else 400000
     s = ctx.seed
-    plan = [(0, n // 2, s), (8, n // 4, s + 1), (2, n // 8, s + 2), (4, n // 8, s + 3)]
+    plan = [(0, n // 2, s), (8, n // 4, s + 1), (2, n // 8, s + 2), (4, n // 8, s + 3), (32, n // 8, s + 4)]
     if not ctx.quick:
         plan += [(0, n // 2, s + 1000), (0, n // 2, s + 2000)]
     run = lc.LegalRun(ctx, plan).execute()
